@@ -53,13 +53,21 @@ def main():
         try:
             chk.violation("correspondence", f"the check could not be run against this tree: {type(e).__name__}: {e}",
                           {"kind": "correspondence", "broken": ["check machinery"], "traceback": tb[-2000:]}, no_input=True)
-            sys.exit(chk.finish())
+            rc = chk.finish()
+            sys.stdout.flush()
+            sys.stderr.flush()
+            os._exit(rc)
         except SystemExit:
             raise
         except Exception:  # noqa: BLE001
             print(f"VIOLATION property={a.pid} replay={path} no-failing-input-found")
             sys.exit(1)
-    sys.exit(chk.finish())
+    rc = chk.finish()
+    # leave without interpreter finalisation: a client under test may have left a frozen event loop spinning in a
+    # daemon thread, and tearing the interpreter down around it can abort the process with another exit status
+    sys.stdout.flush()
+    sys.stderr.flush()
+    os._exit(rc)
 
 
 if __name__ == "__main__":
